@@ -24,6 +24,7 @@ import (
 //           two-conns : two connections with length-2 pipelines over disjoint keys, same bounds
 //           backend-fifo : one real backend client, three senders, backend echoing; request i gets reply i
 //           odd-names : every command name over {CR, LF, x} up to length 5 at the head / in the middle of a pipeline
+//           cold-start : pipelines whose commands find the backend connection still being established
 //           long-pipeline : 40 requests (> the 32-entry session queue) at the default schedule, cut anywhere
 // oracle    the bytes a client receives parse (independent codec) into exactly as many replies as requests,
 //           reply k is the single-server answer to request k, nothing follows the last reply
@@ -195,6 +196,34 @@ func c01oddNamesBody() {
 	sched.SetOutcome("ok")
 }
 
+// C01 (S): the first pipeline after start: the routing table is loaded but no backend connection exists yet, so
+// the commands of the pipeline find the connection to their node still being established.
+func c01coldBody() {
+	cl := cluster.New(2, 0, 2)
+	s := vfStartStack(cl, vfSvcConfig(0, nil, 0))
+	a, b := cl.KeyInGroup("a", 0, 0), cl.KeyInGroup("b", 1, 0)
+	cmd := func(args ...string) c01req {
+		return c01req{raw: resp.Encode(resp.Cmd(args...)), args: args, name: strings.ToLower(args[0])}
+	}
+	pls := [][]c01req{
+		{cmd("SET", a, "v1"), cmd("GET", a)},
+		{cmd("INCR", a), cmd("INCR", a), cmd("INCR", a)},
+		{cmd("SET", a, "1"), cmd("SET", a, "2"), cmd("GET", a)},
+		{cmd("SET", a, "x"), cmd("SET", b, "y"), cmd("MGET", a, b)},
+	}
+	pi := sched.Choose(sched.ClsInput, len(pls), "pipeline")
+	reqs := pls[pi]
+	var raw []byte
+	for _, r := range reqs {
+		raw = append(raw, r.raw...)
+	}
+	c := s.NewClient("c0")
+	c.Send(raw)
+	sched.WaitQuiescent()
+	c01check(s, fmt.Sprintf("first pipeline after start %d", pi), reqs, c)
+	sched.SetOutcome(fmt.Sprint(pi))
+}
+
 func c01schedulesBody() {
 	s, a, b := c01stack()
 	alpha := c01alphabet(a, b)
@@ -349,6 +378,7 @@ func init() {
 		return c01fragmentsBody(2)
 	})
 	reg("C01/odd-names", sched.Bounds{}, sched.Bounds{}, func(string) func() { return c01oddNamesBody })
+	reg("C01/cold-start", sched.Bounds{P: 1, F: 2, Sel: 1}, sched.Bounds{P: 2, F: 2, Sel: 1}, func(string) func() { return c01coldBody })
 	reg("C01/schedules", sched.Bounds{P: 1, F: 1, Sel: 1}, sched.Bounds{P: 2, F: 1, Sel: 1}, func(string) func() { return c01schedulesBody })
 	reg("C01/two-conns", sched.Bounds{P: 1, F: 1, Sel: 1}, sched.Bounds{P: 2, F: 1, Sel: 1}, func(string) func() { return c01twoConnsBody })
 	reg("C01/backend-fifo", sched.Bounds{P: 2, F: 2, Sel: 1}, sched.Bounds{P: 3, F: 2, Sel: 1}, func(string) func() { return c01fifoBody })
